@@ -1,6 +1,8 @@
 package main
 
 import (
+	"go/token"
+	"go/types"
 	"strings"
 
 	"golang.org/x/tools/go/ssa"
@@ -33,6 +35,30 @@ func checkC16(c *Ctx) {
 	c.guard(p, "C16.verifyguard", "identity tweaked key rejected", p.Func("oprf", "PartialObliviousClient", "pointFromInfo"), GuardSpec{Assumes: []Assume{calleeAssume(latTrue, -1, "invoke (group.Element).IsIdentity")}})
 	c.guard(p, "C16.verifyguard", "zero tweaked secret rejected", p.Func("oprf", "server", "secretFromInfo"), GuardSpec{Assumes: []Assume{calleeAssume(latTrue, -1, "invoke (group.Scalar).IsEqual")}})
 	c.guardEachSite(p, "C16.verifyguard", "input hashing to the identity rejected", p.Func("oprf", "client", "blind"), -1, latTrue, "invoke (group.Element).IsIdentity")
+	// RFC 9497: the output hash absorbs len(info) ‖ info exactly in the partially oblivious mode - also for
+	// an empty info - and never in the other two modes
+	{
+		fh := p.Func("oprf", "params", "finalizeHash")
+		modeIs := func(m int64) []ValAssume {
+			return []ValAssume{{Name: "p.m", Val: latInt(m), Match: func(v ssa.Value, in *ssa.Function) bool {
+				if in != fh {
+					return false
+				}
+				switch x := v.(type) {
+				case *ssa.Field:
+					par, ok := x.X.(*ssa.Parameter)
+					return ok && fh != nil && len(fh.Params) > 0 && par == fh.Params[0] && x.X.Type().Underlying().(*types.Struct).Field(x.Field).Name() == "m"
+				case *ssa.UnOp:
+					fa, ok := x.X.(*ssa.FieldAddr)
+					return ok && x.Op == token.MUL && fieldName(fa) == "m"
+				}
+				return false
+			}}}
+		}
+		c.reachCountUnder(p, "C16.dep", "partially oblivious mode with an empty info: input, info and element are absorbed with their lengths, then the label (7 writes)", fh, map[string]lat{"info": latSliceLen(0)}, modeIs(2), "oprf.mustWrite", 7)
+		c.reachCountUnder(p, "C16.dep", "verifiable mode with a non-empty info: the info is not absorbed (5 writes)", fh, map[string]lat{"info": latNonEmpty}, modeIs(1), "oprf.mustWrite", 5)
+		c.reachCountUnder(p, "C16.dep", "base mode with a non-empty info: the info is not absorbed (5 writes)", fh, map[string]lat{"info": latNonEmpty}, modeIs(0), "oprf.mustWrite", 5)
+	}
 	// a zero blind cannot be inverted at finalisation, and the element it produces is the identity
 	c.guardEachSite(p, "C16.verifyguard", "a zero blind is refused", p.Func("oprf", "client", "blind"), -1, latTrue, "invoke (group.Scalar).IsZero")
 	// validate: mismatching lengths are an error
